@@ -306,6 +306,13 @@ func genPageCase(t *rapid.T, o pageGenOpts) PageCase {
 			rows = append(rows, "") // content that ends in a line break
 		}
 		c.Vals = append(c.Vals, PVal{"sink", strings.Join(rows, "\n"), 0})
+		// the boundary between one page and two: the output size at which everything fits
+		// without browse entries, give or take a byte or a browse entry
+		if chancePct(t, 12, "exactfit") {
+			whole := len(c.expect(rows, false, false))
+			d := []int{0, 0, 1, -1, 2, -2, navNext, -navNext, navNext + 1, navNext - 1, navPrev, navNext + navPrev}[uniformN(t, 12, "fitdelta")]
+			c.Size = uint32(max(1, whole+d))
+		}
 	}
 	if c.Size == 0 {
 		c.Size = 1
